@@ -39,6 +39,13 @@ theorem tri_le_sq (n : Nat) : tri n ≤ n * n := by
   | zero => simp [tri]
   | succ n ih => simp [tri]; rw [Nat.add_mul, Nat.mul_add]; omega
 
+/-- the iteration cap read from the current source covers the triangular potential.
+    (Re-checked on every run against `Generated/C02.lean`.) -/
+theorem tri_le_cap (n : Nat) : tri n ≤ Generated.C02.maxIterations n := by
+  unfold Generated.C02.maxIterations
+  rw [Nat.pow_two]
+  exact tri_le_sq n
+
 theorem le_tri (n : Nat) : n ≤ tri n := by
   induction n with
   | zero => simp [tri]
